@@ -32,7 +32,7 @@ type Prog struct {
 
 type LoadOpt struct {
 	GOOS, GOARCH string
-	NeedDeps     bool // full syntax for dependencies (needed for SSA / call graph)
+	Light        bool // AST/types of the named packages only (dependencies from export data): no SSA
 	Tests        bool
 }
 
@@ -45,6 +45,9 @@ func infra(f string, a ...any) {
 func (c *Ctx) Load(opt LoadOpt, patterns ...string) *Prog {
 	mode := packages.NeedName | packages.NeedFiles | packages.NeedCompiledGoFiles | packages.NeedImports |
 		packages.NeedTypes | packages.NeedTypesSizes | packages.NeedSyntax | packages.NeedTypesInfo | packages.NeedDeps | packages.NeedModule
+	if opt.Light {
+		mode &^= packages.NeedDeps
+	}
 	env := append(os.Environ(), "GOWORK=off", "GOFLAGS=-mod=mod", "GOPROXY=off", "GOSUMDB=off", "GOTOOLCHAIN=local")
 	if opt.GOOS != "" {
 		env = append(env, "GOOS="+opt.GOOS)
